@@ -54,7 +54,7 @@ Definition good_p1 (f : field) : Prop :=
 
 Lemma p1_total f p : good_p1 f -> True -> exists p', pass1_step p f = Ok p' /\ True.
 Proof.
-  destruct f as [k [x|l|s|d]]; simpl; intros G _; try contradiction.
+  destruct f as [k [x|l|s|d|fx|fx]]; simpl; intros G _; try contradiction.
   - destruct G as [-> | [-> | [-> | ->]]]; eexists; (split; [reflexivity|exact I]).
   - subst k. eexists; (split; [reflexivity|exact I]).
 Qed.
@@ -63,7 +63,7 @@ Lemma p1_diamond f g p p1 p2 : good_p1 f -> good_p1 g -> fst f <> fst g -> True 
   pass1_step p f = Ok p1 -> pass1_step p g = Ok p2 ->
   exists p3, pass1_step p1 g = Ok p3 /\ pass1_step p2 f = Ok p3.
 Proof.
-  destruct f as [k [x|l|s|d]], g as [k' [x'|l'|s'|d']]; simpl; intros G G' Hne _ E1 E2; try contradiction;
+  destruct f as [k [x|l|s|d|fx|fx]], g as [k' [x'|l'|s'|d'|fx'|fx']]; simpl; intros G G' Hne _ E1 E2; try contradiction;
     repeat match goal with H : _ \/ _ |- _ => destruct H end; subst;
     try (exfalso; apply Hne; reflexivity);
     unfold pass1_step in *; simpl in *; inj_ok; eexists; (split; reflexivity).
@@ -92,7 +92,7 @@ Definition good_info (p : bparams) (f : field) : Prop :=
 
 Lemma info_total p f i : good_info p f -> True -> exists i', info_step p i f = Ok i' /\ True.
 Proof.
-  destruct f as [k [x|l|s|d]]; simpl; intros G _; try contradiction.
+  destruct f as [k [x|l|s|d|fx|fx]]; simpl; intros G _; try contradiction.
   destruct G as [-> | [-> | [-> | [-> | [-> | [-> (u & s & U & X)]]]]]]; unfold info_step; simpl;
     try rewrite U; simpl; try rewrite X; simpl; eexists; (split; [reflexivity|exact I]).
 Qed.
@@ -101,7 +101,7 @@ Lemma info_diamond p f g i i1 i2 : good_info p f -> good_info p g -> fst f <> fs
   info_step p i f = Ok i1 -> info_step p i g = Ok i2 ->
   exists i3, info_step p i1 g = Ok i3 /\ info_step p i2 f = Ok i3.
 Proof.
-  destruct f as [k [x|l|s|d]], g as [k' [x'|l'|s'|d']]; simpl; intros G G' Hne _ E1 E2; try contradiction.
+  destruct f as [k [x|l|s|d|fx|fx]], g as [k' [x'|l'|s'|d'|fx'|fx']]; simpl; intros G G' Hne _ E1 E2; try contradiction.
   destruct G as [-> | [-> | [-> | [-> | [-> | [-> (u & s & U & X)]]]]]];
   destruct G' as [-> | [-> | [-> | [-> | [-> | [-> (u' & s' & U' & X')]]]]]];
     try (exfalso; apply Hne; reflexivity);
@@ -139,7 +139,7 @@ Definition good_dinfo (f : field) : Prop :=
 
 Lemma dinfo_total f s : good_dinfo f -> True -> exists s', dinfo_step s f = Ok s' /\ True.
 Proof.
-  destruct f as [k [x|l|b|d]]; simpl; intros G _; try contradiction.
+  destruct f as [k [x|l|b|d|fx|fx]]; simpl; intros G _; try contradiction.
   destruct G as [-> | [-> | [-> | [-> | [-> | ->]]]]]; eexists; (split; [reflexivity|exact I]).
 Qed.
 
@@ -147,7 +147,7 @@ Lemma dinfo_diamond f g s s1 s2 : good_dinfo f -> good_dinfo g -> fst f <> fst g
   dinfo_step s f = Ok s1 -> dinfo_step s g = Ok s2 ->
   exists s3, dinfo_step s1 g = Ok s3 /\ dinfo_step s2 f = Ok s3.
 Proof.
-  destruct f as [k [x|l|b|d]], g as [k' [x'|l'|b'|d']]; simpl; intros G G' Hne _ E1 E2; try contradiction.
+  destruct f as [k [x|l|b|d|fx|fx]], g as [k' [x'|l'|b'|d'|fx'|fx']]; simpl; intros G G' Hne _ E1 E2; try contradiction.
   destruct G as [-> | [-> | [-> | [-> | [-> | ->]]]]]; destruct G' as [-> | [-> | [-> | [-> | [-> | ->]]]]];
     try (exfalso; apply Hne; reflexivity);
     unfold dinfo_step in *; simpl in *; inj_ok; eexists; (split; reflexivity).
@@ -193,7 +193,7 @@ Qed.
 
 Lemma dense_total f s : good_dense f -> True -> exists s', dense_step s f = Ok s' /\ True.
 Proof.
-  destruct f as [k [x|l|b|d]]; simpl; intros G _; try contradiction.
+  destruct f as [k [x|l|b|d|fx|fx]]; simpl; intros G _; try contradiction.
   - destruct G as [-> | [-> | [-> | ->]]]; eexists; (split; [reflexivity|exact I]).
   - destruct G as (-> & Gd & _). unfold dense_step. simpl.
     destruct (dinfo_loop_total d Gd (c_info (fst s), if0)) as (s' & E). rewrite E. simpl. eauto.
@@ -204,7 +204,7 @@ Lemma dense_diamond f g s s1 s2 : good_dense f -> good_dense g -> fst f <> fst g
   exists s3, dense_step s1 g = Ok s3 /\ dense_step s2 f = Ok s3.
 Proof.
   destruct s as [[c1 ic c3 c4 c5] [f1 f2 f3 f4 f5]].
-  destruct f as [k [x|l|b|d]], g as [k' [x'|l'|b'|d']]; simpl; intros G G' Hne _ E1 E2; try contradiction.
+  destruct f as [k [x|l|b|d|fx|fx]], g as [k' [x'|l'|b'|d'|fx'|fx']]; simpl; intros G G' Hne _ E1 E2; try contradiction.
   - destruct G as [-> | [-> | [-> | ->]]]; destruct G' as [-> | [-> | [-> | ->]]];
       try (exfalso; apply Hne; reflexivity);
       unfold dense_step in *; simpl in *; inj_ok; eexists; (split; reflexivity).
@@ -234,7 +234,7 @@ Lemma dense_step_child E x s : Forall good_dense E -> In (on_msg canon_leaf x) E
   dense_step s x = dense_step s (on_msg canon_leaf x).
 Proof.
   intros Hg Hin. rewrite Forall_forall in Hg. specialize (Hg _ Hin).
-  destruct x as [k [y|l|b|im]]; try reflexivity.
+  destruct x as [k [y|l|b|im|fx|fx]]; try reflexivity.
   unfold on_msg in *. simpl in *. destruct Hg as (-> & Gd & Nd).
   unfold dense_step. simpl. rewrite (dinfo_loop_canon im (canon_leaf im) _ eq_refl Gd Nd). reflexivity.
 Qed.
@@ -269,7 +269,7 @@ Qed.
 
 Lemma rel_total p f s : good_rel p f -> True -> exists s', rel_step p s f = Ok s' /\ True.
 Proof.
-  destruct f as [k [x|l|b|d]]; simpl; intros G _; try contradiction.
+  destruct f as [k [x|l|b|d|fx|fx]]; simpl; intros G _; try contradiction.
   - subst k. eexists; (split; [reflexivity|exact I]).
   - destruct G as [-> | [-> | [-> | [-> | ->]]]]; eexists; (split; [reflexivity|exact I]).
   - destruct G as (-> & Gd & _). unfold rel_step. simpl.
@@ -281,7 +281,7 @@ Lemma rel_diamond p f g s s1 s2 : good_rel p f -> good_rel p g -> fst f <> fst g
   exists s3, rel_step p s1 g = Ok s3 /\ rel_step p s2 f = Ok s3.
 Proof.
   destruct s as [[rid ri rt rm] [c1 c2 c3 c4 c5 c6 c7 c8] fk fv fr fm ft].
-  destruct f as [k [x|l|b|d]], g as [k' [x'|l'|b'|d']]; simpl; intros G G' Hne _ E1 E2; try contradiction;
+  destruct f as [k [x|l|b|d|fx|fx]], g as [k' [x'|l'|b'|d'|fx'|fx']]; simpl; intros G G' Hne _ E1 E2; try contradiction;
     repeat match goal with
            | H : _ /\ _ |- _ => destruct H
            | H : _ \/ _ |- _ => destruct H
@@ -309,7 +309,7 @@ Lemma rel_step_child p E x s : Forall (good_rel p) E -> In (on_msg canon_leaf x)
   rel_step p s x = rel_step p s (on_msg canon_leaf x).
 Proof.
   intros Hg Hin. rewrite Forall_forall in Hg. specialize (Hg _ Hin).
-  destruct x as [k [y|l|b|im]]; try reflexivity.
+  destruct x as [k [y|l|b|im|fx|fx]]; try reflexivity.
   unfold on_msg in *. simpl in *. destruct Hg as (-> & Gd & Nd).
   unfold rel_step. simpl. rewrite (info_loop_canon p im (canon_leaf im) _ eq_refl Gd Nd). reflexivity.
 Qed.
@@ -425,7 +425,7 @@ Definition good_way (p : bparams) (L : nat) (f : field) : Prop :=
 Lemma way_total p L f s : good_way p L f -> InvW L s -> exists s', way_step p s f = Ok s' /\ InvW L s'.
 Proof.
   destruct s as [[wid wi wt wn] wc fk fv]. unfold InvW. simpl.
-  destruct f as [k [x|l|b|d]]; simpl; intros G Hi; try contradiction.
+  destruct f as [k [x|l|b|d|fx|fx]]; simpl; intros G Hi; try contradiction.
   - subst k. eexists; (split; [reflexivity|exact Hi]).
   - destruct G as [-> | [-> | [[-> | [-> | ->]] Hl]]]; unfold way_step; simpl;
       try (eexists; (split; [reflexivity|exact Hi]));
@@ -447,7 +447,7 @@ Lemma way_diamond p L f g s s1 s2 : good_way p L f -> good_way p L g -> fst f <>
   exists s3, way_step p s1 g = Ok s3 /\ way_step p s2 f = Ok s3.
 Proof.
   destruct s as [[wid wi wt wn] [c1 c2 c3 c4 c5 c6 c7 c8] fk fv]. unfold InvW. simpl.
-  destruct f as [k [x|l|b|d]], g as [k' [x'|l'|b'|d']]; simpl; intros G G' Hne Hi E1 E2; try contradiction;
+  destruct f as [k [x|l|b|d|fx|fx]], g as [k' [x'|l'|b'|d'|fx'|fx']]; simpl; intros G G' Hne Hi E1 E2; try contradiction;
     repeat match goal with
            | H : _ /\ _ |- _ => destruct H
            | H : _ \/ _ |- _ => destruct H
@@ -507,7 +507,7 @@ Lemma way_step_child p L E x s : Forall (good_way p L) E -> In (on_msg canon_lea
   way_step p s x = way_step p s (on_msg canon_leaf x).
 Proof.
   intros Hg Hin. rewrite Forall_forall in Hg. specialize (Hg _ Hin).
-  destruct x as [k [y|l|b|im]]; try reflexivity.
+  destruct x as [k [y|l|b|im|fx|fx]]; try reflexivity.
   unfold on_msg in *. simpl in *. destruct Hg as (-> & Gd & Nd).
   unfold way_step. simpl. rewrite (info_loop_canon p im (canon_leaf im) _ eq_refl Gd Nd). reflexivity.
 Qed.
